@@ -321,7 +321,18 @@ pub fn run_batch(cfg: &CheckCfg, indices: Vec<u64>) -> (AggOut, Vec<(u64, String
                 let _ = slot.lock().unwrap().child.kill();
                 let _ = slot.lock().unwrap().child.wait();
                 if let Some(i) = cur {
-                    agg.lock().unwrap().suspects.push((i, if killed { "stalled".into() } else { "crashed".into() }));
+                    let mut a = agg.lock().unwrap();
+                    a.suspects.push((i, if killed { "stalled".into() } else { "crashed".into() }));
+                    // every stalled run costs the watchdog limit: after a handful of them the batch
+                    // has what it needs (they are triaged alone afterwards); do not spend an hour
+                    let stalled = a.suspects.iter().filter(|(_, k)| k == "stalled").count();
+                    if stalled >= 6 {
+                        let mut q = queue.lock().unwrap();
+                        if !q.is_empty() {
+                            a.harness.push(format!("NOTE: batch cut short after {} stalled runs ({} run indices not executed)", stalled, q.len()));
+                            q.clear();
+                        }
+                    }
                 }
             }
         }));
@@ -421,9 +432,10 @@ pub fn check(cfg: &CheckCfg) -> i32 {
         *agg.stats.fired.entry("separate_os_process_single_cpu".into()).or_insert(0) += cross_compared;
     }
 
-    let mut harness_errors: Vec<String> = agg.harness.clone();
+    let mut harness_errors: Vec<String> = agg.harness.iter().filter(|l| !l.starts_with("NOTE:")).cloned().collect();
     harness_errors.sort();
     harness_errors.dedup();
+    let cut_short: Vec<String> = agg.harness.iter().filter(|l| l.starts_with("NOTE:")).cloned().collect();
     let mut reported: Vec<(Violation, String)> = vec![];
 
     // stalls and crashes: re-run alone with per-operation progress; only a reproduced one counts
@@ -434,7 +446,9 @@ pub fn check(cfg: &CheckCfg) -> i32 {
         // a few of each kind are triaged (each costs up to a minute); the rest are counted
         let n = triaged.entry(kind.clone()).or_insert(0);
         *n += 1;
-        if *n > 3 {
+        // one confirmed (and minimised) run per kind is enough; up to three attempts to get it
+        let already = agg.violations.keys().any(|(p, c)| p == "C04" && ((kind == "stalled" && c == "hang") || (kind == "crashed" && c.starts_with("crash"))));
+        if *n > 3 || already {
             agg.stats.probe("suspect_runs_not_triaged");
             agg.results += 1;
             continue;
@@ -676,11 +690,18 @@ pub fn check(cfg: &CheckCfg) -> i32 {
         }
         return 2;
     }
-    if agg.results < cfg.runs {
+    for l in &cut_short {
+        println!("{}", l);
+    }
+    if agg.results < cfg.runs && cut_short.is_empty() {
         println!("HARNESS-ERROR: only {} of {} runs produced a result", agg.results, cfg.runs);
         if reported.is_empty() {
             return 2;
         }
+    }
+    if !cut_short.is_empty() && reported.is_empty() {
+        println!("HARNESS-ERROR: the batch was cut short by stalls, none of which was confirmed as a violation or known finding");
+        return 2;
     }
     if !reported.is_empty() {
         for (v, path) in &reported {
@@ -772,7 +793,7 @@ fn minimize_isolated(run: &Run, hang: bool) -> Run {
     let mut best = run.clone();
     // drop operations one at a time, from the front (the last op is the one that stalls)
     let mut i = 0;
-    while i + 1 < best.ops.len() && start.elapsed() < Duration::from_secs(90) {
+    while i + 1 < best.ops.len() && start.elapsed() < Duration::from_secs(60) {
         let mut c = best.clone();
         c.ops.remove(i);
         if bad(&c) {
@@ -783,7 +804,7 @@ fn minimize_isolated(run: &Run, hang: bool) -> Run {
     }
     let files: Vec<String> = best.project.files.keys().cloned().collect();
     for f in files {
-        if start.elapsed() > Duration::from_secs(120) || f == best.project.entry {
+        if start.elapsed() > Duration::from_secs(90) || f == best.project.entry {
             continue;
         }
         let mut c = best.clone();
@@ -804,7 +825,7 @@ fn minimize_isolated(run: &Run, hang: bool) -> Run {
     let files: Vec<String> = best.project.files.keys().cloned().collect();
     for f in files {
         loop {
-            if start.elapsed() > Duration::from_secs(240) {
+            if start.elapsed() > Duration::from_secs(150) {
                 break;
             }
             let content = best.project.files[&f].clone();
